@@ -55,6 +55,10 @@ def samples(Mr, N, rng, n, what="lam"):
         e.update({"d%d" % k: round(rng.uniform(0.2, 3) * 8) / 8 for k in range(N)})
         e.update({"r%d" % k: round(rng.uniform(-2, 2) * 8) / 8 for k in range(Mr)})
         e[what] = 2.0 ** rng.randint(-8, 8)
+        if i % 8 == 3:      # the same problem in small units: J and r scaled by 2^-24 (|J^T r| ~ 1e-14, far from stationary)
+            for k_ in list(e):
+                if k_[0] in ("J", "r") and k_ != what:
+                    e[k_] = e[k_] * 2.0 ** -24
         out.append(e)
     return out
 
